@@ -82,12 +82,18 @@ type c17Params struct {
 	// private key file (-key / DTAIL_SSH_PRIVATE_KEYFILE_PATH); "home" = through InitSSHAuthMethods with the key
 	// found at ~/.ssh/id_rsa (no agent)
 	Via string
+	// CancelMs > 0: the client's context ends that many (virtual) milliseconds after the connections were started,
+	// i.e. while unknown hosts are still being collected for the prompt (2 s window) or the prompt waits for an answer
+	CancelMs int
 }
 
 func (p c17Params) String() string {
 	s := fmt.Sprintf("known_hosts=%v contact=%v answer=%q trustall=%v", p.File, p.Contact, p.Answer, p.TrustAll)
 	if p.Via != "" {
 		s += " via=InitSSHAuthMethods/" + p.Via
+	}
+	if p.CancelMs > 0 {
+		s += fmt.Sprintf(" cancel-after=%dms", p.CancelMs)
 	}
 	return s
 }
@@ -137,6 +143,7 @@ func c17Scenario(p c17Params, idx int) *explore.Scenario {
 				panic(err)
 			}
 			vos.S.StdinData = p.Answer
+			vos.S.StdinHang = p.CancelMs > 0 // the user has not answered (yet)
 			// what x/crypto's knownhosts says about each contacted host (trusted base)
 			base, err := knownhosts.New(path)
 			if err != nil {
@@ -182,6 +189,25 @@ func c17Scenario(p c17Params, idx int) *explore.Scenario {
 				})
 			}
 			got := map[int]bool{}
+			if p.CancelMs > 0 {
+				// shutdown while hosts are waiting for the user's decision: whatever a callback answers from now
+				// on, it must not be "trusted" for a host that is neither known nor approved
+				vrt.Sleep("before-cancel", time.Duration(p.CancelMs)*time.Millisecond)
+				cancel()
+				vrt.Sleep("after-cancel", 10*time.Second)
+				base2, _ := knownhosts.New(path)
+				for results.Len("drain") > 0 {
+					r := results.Recv("drain")
+					h := c17Hosts[r[0]]
+					known := base(h.Server, h.Remote, h.Key) == nil || (base2 != nil && base2(h.Server, h.Remote, h.Key) == nil)
+					if r[1] == 1 && !known && !p.TrustAll {
+						viol = fmt.Sprintf("the client's context ended %d ms after connecting, before the user answered the prompt: the host-key check of unknown host %s answered 'trusted' (the connection goes ahead and the commands are sent)", p.CancelMs, h.Name)
+						return
+					}
+				}
+				out = "cancelled"
+				return
+			}
 			for range p.Contact {
 				r := results.Recv("wait")
 				got[r[0]] = r[1] == 1
@@ -318,6 +344,11 @@ func c17ParamSets(tier string) (ps []c17Params) {
 			}
 			ps = append(ps, c17Params{File: f, Contact: contact, Answer: "", TrustAll: true})
 			if len(f) <= 1 {
+				for _, ms := range []int{500, 1999, 2000, 2500} {
+					ps = append(ps, c17Params{File: f, Contact: contact, Answer: "", CancelMs: ms})
+				}
+			}
+			if len(f) <= 1 {
 				// the same through the client's real initialisation, with each way of finding the private key
 				for _, via := range []string{"key", "home"} {
 					for _, ans := range []string{"y\n", "n\n"} {
@@ -336,7 +367,7 @@ func init() {
 		ID:    "C17",
 		Level: "model_checking",
 		Rule: "known-hosts files = all sequences of <=2 (quick) / <=3 (thorough) lines over 10 line kinds (entry for A with the right key, with a changed key, entry for B, hashed entry, multi-host entry, IP entry, comment, blank, @revoked line, unrelated host); " +
-			"contacted servers {A}, {B}, {A,B} with their current keys; the callback obtained directly and (files of <=1 line) through the client's InitSSHAuthMethods with an explicit private key file and with ~/.ssh/id_rsa; answers y / n / a / d+y / garbage+n / yes / no / empty line+n / 'ye'+n / 'Y'+no / blank+n / 'nope'+n, and trust-all; the real Wrap() callbacks run as goroutines against the real PromptAddHosts loop (2 s batching timer in virtual time, scripted stdin), " +
+			"contacted servers {A}, {B}, {A,B} with their current keys; the callback obtained directly and (files of <=1 line) through the client's InitSSHAuthMethods with an explicit private key file and with ~/.ssh/id_rsa; the client's context ending 500..2500 ms after connecting with no answer on stdin (no callback may then answer 'trusted' for an unknown host); answers y / n / a / d+y / garbage+n / yes / no / empty line+n / 'ye'+n / 'Y'+no / blank+n / 'nope'+n, and trust-all; the real Wrap() callbacks run as goroutines against the real PromptAddHosts loop (2 s batching timer in virtual time, scripted stdin), " +
 			"all schedules with <=1 deviation; oracle: proceed <=> x/crypto knownhosts accepts the key OR the user approved OR trust-all; a refused host is reported untrusted; the file afterwards accepts every newly trusted host, keeps every unrelated old line byte-identical " +
 			"and in order, adds nothing else, and is unchanged when nobody was newly trusted",
 		Assumptions: []string{
@@ -361,6 +392,8 @@ func init() {
 						return "panic"
 					case strings.HasPrefix(msg, "deadlock"):
 						return "deadlock"
+					case strings.Contains(msg, "answered 'trusted'"):
+						return "unknown-host-trusted-when-the-client-shuts-down"
 					case strings.Contains(msg, "the client proceeds"):
 						return "wrong-trust-decision"
 					case strings.Contains(msg, "not preserved"):
